@@ -113,6 +113,9 @@ def execAssign (B : Build) (regs : List (String × Ext)) (dst op : String) (args
   | "gen", [] => put genExt
   | "id", [] => put Ext.identity
   | "dec", [h] =>
+    -- every (Compress, Validate) mode other than (Yes, Yes) of the stream deserialisers is `unimplemented!()`
+    if ["deser_elem_unc", "deser_elem_unchecked", "deser_elem_unc_unchecked", "deser_aff_unc", "deser_aff_unchecked",
+        "deser_aff_unc_unchecked"].contains ((op.splitOn ".").getD 1 "") then .error "panic" else
     match parseHex h with
     | none => .error "bad-op"
     | some bs => match decodeSlice B.sr bs with
